@@ -229,7 +229,8 @@ class SystemClock(Clock, metaclass=MetaSystemClock):
                         _libsc3.main._in_awake_call = True
                         delta = task.__awake__(cls)
                         if isinstance(delta, (int, float))\
-                        and not isinstance(delta, bool):
+                        and not isinstance(delta, bool)\
+                        and delta != float('inf'):  # As sched.
                             time = sched_time + delta
                             cls._sched_add(time, task)
                     except stm.StopStream:
@@ -320,7 +321,8 @@ class Scheduler():
             _libsc3.main._update_logical_time(self._seconds)
             _libsc3.main._in_awake_call = True
             delta = item.__awake__(self._clock)
-            if isinstance(delta, (int, float)) and not isinstance(delta, bool):
+            if isinstance(delta, (int, float)) and not isinstance(delta, bool)\
+            and delta != float('inf'):  # As sched.
                 self._sched_add(delta, item)
         except stm.StopStream:
             pass
@@ -575,7 +577,8 @@ class ClockTask():
         try:
             _libsc3.main._update_logical_time(time)
             delta = self.task.__awake__(self.clock)
-            if isinstance(delta, (int, float)) and not isinstance(delta, bool):
+            if isinstance(delta, (int, float)) and not isinstance(delta, bool)\
+            and delta != float('inf'):  # As sched.
                 self.beats = self.beats + delta
                 self.scheduler.add(self.clock.beats2secs(self.beats), self)
         except stm.StopStream:
@@ -870,7 +873,8 @@ class TempoClock(Clock, metaclass=MetaTempoClock):
                         _libsc3.main._in_awake_call = True
                         delta = task.__awake__(self)
                         if isinstance(delta, (int, float))\
-                        and not isinstance(delta, bool):
+                        and not isinstance(delta, bool)\
+                        and delta != float('inf'):  # As sched.
                             time = self._beats + delta
                             self._sched_add(time, task)
                     except stm.StopStream:
